@@ -532,3 +532,69 @@ def zr1(facts, rep, rule='ZR-1'):
                                                'log-probability that underflows counts as zero' % bad[2][:90])
     else:
         rep.ok(rule, key, '%s:%s' % (b.file, b.line), 'no exponentiation reachable (%d bodies)' % len(reach))
+
+
+# ------------------------------------------------------------------------------------------------ CS-1 (C15)
+def cs1(facts, rep, rule='CS-1'):
+    rep.rule(rule, 'cumulative sums: the step function that LogProb::ln_cumsum_exp hands to Iterator::scan replaces the running '
+                   'state by ln_add_exp(state, item) - nothing else is ever stored to it - and yields the new state. Capping, '
+                   'rounding or otherwise post-processing the state makes every later prefix sum wrong')
+    cum = facts.method('stats::probs::LogProb', 'ln_cumsum_exp')
+    key = 'LogProb::ln_cumsum_exp|scan-step-is-ln_add_exp'
+    if cum is None:
+        rep.missing(rule, key, 'ln_cumsum_exp not found')
+        return
+    rep.analysed_body(cum)
+    cands = []
+
+    def fn_item(o):
+        k = o.get('k') if isinstance(o, dict) else None
+        if isinstance(k, dict) and (k.get('res') or k.get('fn')):
+            fb = facts.bodies.get(k.get('res') or k.get('fn'))
+            if fb is not None and fb.arg_count == 2 and all(fb is not c[0] for c in cands):
+                cands.append((fb, 1, 2))
+    for bb in sorted(cum.reachable(0)):
+        for s in cum.stmts(bb):
+            if s['k'] == 'assign' and s['r']['k'] in ('use', 'cast'):
+                fn_item(s['r']['o'])
+        t = cum.term(bb)
+        if t['k'] == 'call':
+            for a in t['args']:
+                fn_item(a)
+    for cp in cum.closure_literals():
+        cb = facts.bodies.get(cp)
+        if cb is not None and cb.arg_count == 3 and all(cb is not c[0] for c in cands):
+            cands.append((cb, 2, 3))
+    if not cands:
+        rep.missing(rule, key, 'the step function passed to scan was not found')
+        return
+    n = 0
+    for fb, sl, pl_ in cands:
+        fb = facts.view(fb)
+        rep.analysed_body(fb)
+        n += 1
+        stores = []
+        for bb in sorted(fb.reachable(0)):
+            for i, s in enumerate(fb.stmts(bb)):
+                if s['k'] == 'assign' and s['p']['l'] == sl and (s['p'].get('pj') or [None])[0] == '*':
+                    stores.append((bb, i, s))
+        problems = []
+        for bb, i, s in stores:
+            e = strip(fb.expr_rvalue(s['r'], inline_user=True))
+            good = _is_call(e, ('LogProb::ln_add_exp',)) and len(e[2]) == 2
+            if good:
+                roots = [fb.param_roots(x) if hasattr(fb, 'param_roots') else None for x in ()]
+                txt = sorted(fmt(strip(x)) for x in e[2])
+                names = sorted([fb.local_name(sl) or '_%d' % sl, fb.local_name(pl_) or '_%d' % pl_])
+                good = [re.sub(r'^\(?\*?(\w+)\)?$', r'\1', x) for x in txt] == names or \
+                    sorted(re.sub(r'^\(?\*?(\w+)\)?$', r'\1', x) for x in txt) == names
+            if not good:
+                problems.append((bb, 'the running state is set to `%s`' % fmt(e)[:80]))
+        if not stores:
+            problems.append((0, 'the running state is never updated'))
+        if problems:
+            rep.bad(rule, key, fb.loc(problems[0][0]), '%s, not to ln_add_exp(state, item): prefix sums after this element are wrong'
+                    % problems[0][1])
+        else:
+            rep.ok(rule, key, fb.loc(stores[0][0]), 'state = ln_add_exp(state, item)')
+    rep.floor(rule, 'scan step functions', n, 1)
